@@ -84,6 +84,198 @@ Proof.
   destruct Hr1 as [Hr1|Hr1]; [left; congruence | right; left; lia].
 Qed.
 
+(* ================================================================== delivered stays delivered:
+   how the table a poll ends with relates to the table it started from.  DMl d l0 l: the segment at
+   index d + i of l0, if delivered, is at index i of l, delivered. *)
+Definition dlv (g g' : seg) : Prop := sg_delivered g = true -> sg_delivered g' = true.
+Definition DMl (d : nat) (l0 l : list seg) : Prop :=
+  forall i g, nth_error l0 (d + i) = Some g -> sg_delivered g = true ->
+              exists g', nth_error l i = Some g' /\ sg_delivered g' = true.
+
+Lemma DMl_refl : forall l, DMl 0 l l.
+Proof. intros l i g H Hd. exists g. auto. Qed.
+
+Lemma Forall2_nth : forall A B (R : A -> B -> Prop) l l' i x,
+  Forall2 R l l' -> nth_error l i = Some x -> exists y, nth_error l' i = Some y /\ R x y.
+Proof.
+  intros A B R l l' i x H. revert i. induction H as [|a b l l' Hab H IH]; intros [|i] Hn; cbn [nth_error] in *;
+    try discriminate.
+  - injection Hn as <-. exists b. auto.
+  - apply IH. exact Hn.
+Qed.
+
+Lemma DMl_mono : forall d l0 l l', DMl d l0 l -> Forall2 dlv l l' -> DMl d l0 l'.
+Proof.
+  intros d l0 l l' H F i g Hn Hd. destruct (H i g Hn Hd) as (g1 & H1 & H2).
+  destruct (Forall2_nth _ _ _ _ _ _ _ F H1) as (g2 & H3 & H4). exists g2. split; [exact H3 | apply H4; exact H2].
+Qed.
+
+Lemma DMl_drop : forall d l0 dropped l, DMl d l0 (dropped ++ l) -> DMl (d + length dropped) l0 l.
+Proof.
+  intros d l0 dropped l H i g Hn Hd.
+  replace (d + length dropped + i)%nat with (d + (length dropped + i))%nat in Hn by lia.
+  destruct (H _ g Hn Hd) as (g' & H1 & H2). exists g'. split; [|exact H2].
+  rewrite nth_error_app2 in H1 by lia. replace (length dropped + i - length dropped)%nat with i in H1 by lia.
+  exact H1.
+Qed.
+
+Lemma DMl_app : forall d l0 l x, DMl d l0 l -> DMl d l0 (l ++ x).
+Proof.
+  intros d l0 l x H i g Hn Hd. destruct (H i g Hn Hd) as (g' & H1 & H2). exists g'. split; [|exact H2].
+  rewrite nth_error_app1; [exact H1|]. apply nth_error_Some. congruence.
+Qed.
+
+(* dropping an undelivered last element *)
+Lemma DMl_pop : forall d l0 init x, sg_delivered x = false -> DMl d l0 (init ++ [x]) -> DMl d l0 init.
+Proof.
+  intros d l0 init x Hx H i g Hn Hd. destruct (H i g Hn Hd) as (g' & H1 & H2). exists g'. split; [|exact H2].
+  destruct (Nat.lt_ge_cases i (length init)) as [Hlt|Hge]; [rewrite nth_error_app1 in H1 by exact Hlt; exact H1|].
+  exfalso. rewrite nth_error_app2 in H1 by exact Hge.
+  destruct (i - length init)%nat as [|k]; cbn [nth_error] in H1; [injection H1 as <-; congruence|].
+  destruct k; discriminate.
+Qed.
+
+Lemma Forall2_len : forall A B (R : A -> B -> Prop) l l', Forall2 R l l' -> length l = length l'.
+Proof. intros A B R l l' H. induction H; cbn [length]; congruence. Qed.
+
+Lemma Forall2_dlv_refl : forall l, Forall2 dlv l l.
+Proof. induction l; constructor; [intro H; exact H | assumption]. Qed.
+
+Lemma apply_sack_dlv : forall l bits now a l' a', apply_sack l bits now a = (l', a') -> Forall2 dlv l l'.
+Proof.
+  induction l as [|x r IH]; intros bits now a l' a'; cbn [apply_sack].
+  - intro H; injection H as <- _. constructor.
+  - destruct bits as [|b bs]; [intro H; injection H as <- _; apply Forall2_dlv_refl|].
+    destruct (negb (sg_delivered x) && b).
+    + destruct (apply_sack r bs now _) as [r' a''] eqn:E. intro H; injection H as <- _.
+      constructor; [intros _; reflexivity | eapply IH; exact E].
+    + destruct (apply_sack r bs now a) as [r' a''] eqn:E. intro H; injection H as <- _.
+      constructor; [intro K; exact K | eapply IH; exact E].
+Qed.
+
+Lemma Forall2_app_inv_parts : forall A B (R : A -> B -> Prop) a b a' b',
+  Forall2 R a a' -> Forall2 R b b' -> Forall2 R (a ++ b) (a' ++ b').
+Proof. intros. apply Forall2_app; assumption. Qed.
+
+Lemma sack_phase_dlv : forall t rest a1 su now ack sk l' a' dp lse,
+  sack_phase t rest a1 su now ack sk = (l', a', dp, lse) -> Forall2 dlv rest l'.
+Proof.
+  intros t rest a1 su now ack sk l' a' dp lse. unfold sack_phase.
+  destruct rest as [|x xs]; [intro H; injection H as <- _ _ _; constructor|].
+  destruct sk as [k|]; [|intro H; injection H as <- _ _ _; apply Forall2_dlv_refl].
+  destruct (seq_gt su ack); [|intro H; injection H as <- _ _ _; apply Forall2_dlv_refl].
+  set (rest := x :: xs). set (so := seq_sub (wadd16 ack 2) su).
+  destruct (0 <=? so).
+  - destruct (apply_sack (skipn (Z.to_nat so) rest) _ now _) as [tl' a''] eqn:E.
+    intro H; injection H as <- _ _ _. rewrite <- (firstn_skipn (Z.to_nat so) rest) at 1.
+    apply Forall2_app; [apply Forall2_dlv_refl | eapply apply_sack_dlv; exact E].
+  - destruct (apply_sack rest _ now _) as [l2 a''] eqn:E.
+    intro H; injection H as <- _ _ _. eapply apply_sack_dlv; exact E.
+Qed.
+
+Lemma pipe_loop_dlv : forall l t hr th now a l' a',
+  pipe_loop l t hr th now a = (l', a') -> Forall2 dlv (map snd l) l'.
+Proof.
+  induction l as [|[off x] r IH]; intros t hr th now a l' a'; cbn [pipe_loop].
+  - intro H; injection H as <- _. constructor.
+  - cbn [map snd]. destruct (seg_last_sent x).
+    + destruct (sg_delivered x) eqn:Ed.
+      * destruct (pipe_loop r t hr th now _) as [r' a''] eqn:E. intro H; injection H as <- _.
+        constructor; [intro K; exact K | eapply IH; exact E].
+      * destruct (pipe_loop r t hr th now _) as [r' a''] eqn:E. intro H; injection H as <- _.
+        constructor; [intro K; congruence | eapply IH; exact E].
+    + destruct (pipe_loop r t hr th now a) as [r' a''] eqn:E. intro H; injection H as <- _.
+      constructor; [intro K; exact K | eapply IH; exact E].
+Qed.
+
+Lemma Forall2_rev : forall A B (R : A -> B -> Prop) l l', Forall2 R l l' -> Forall2 R (rev l) (rev l').
+Proof.
+  intros A B R l l' H. induction H; cbn [rev]; [constructor|].
+  apply Forall2_app; [assumption | constructor; [assumption | constructor]].
+Qed.
+
+Lemma calc_pipe_dlv : forall t hr hd rtt now t' p rc,
+  calc_pipe t hr hd rtt now = Some (t', p, rc) ->
+  Forall2 dlv (ss_segs t) (ss_segs t') /\ ss_snd_una t' = ss_snd_una t.
+Proof.
+  intros t hr hd rtt now t' p rc. unfold calc_pipe. destruct (_ <? _); [discriminate|].
+  set (n := Z.to_nat _).
+  destruct (pipe_loop _ t hr _ now _) as [upd a] eqn:E. intro H; injection H as <- _ _.
+  cbn [Segments.set_segs ss_segs ss_snd_una]. split; [|reflexivity].
+  apply pipe_loop_dlv in E. rewrite map_rev, enum_from_snd in E. apply Forall2_rev in E.
+  rewrite rev_involutive in E. rewrite <- (firstn_skipn n (ss_segs t)) at 1.
+  apply Forall2_app; [exact E | apply Forall2_dlv_refl].
+Qed.
+
+Lemma update_nth_dlv : forall (f : seg -> seg) l i, (forall x, dlv x (f x)) -> Forall2 dlv l (update_nth l i f).
+Proof.
+  intros f. induction l as [|y ys IH]; intros [|i] H; cbn [update_nth]; try constructor;
+    try apply H; try apply Forall2_dlv_refl; try (intro K; exact K). apply IH. exact H.
+Qed.
+
+Lemma wadd16_wadd16 : forall u a b, 0 <= a -> 0 <= b ->
+  wadd16 (wadd16 u (a mod M16)) (b mod M16) = wadd16 u ((a + b) mod M16).
+Proof. intros u a b Ha Hb. unfold wadd16, M16. lia. Qed.
+
+(* the relation between two tables *)
+Definition DM (t0 t : segments) : Prop :=
+  exists d, (d <= length (ss_segs t0))%nat /\
+    ss_snd_una t = wadd16 (ss_snd_una t0) (Z.of_nat d mod M16) /\ DMl d (ss_segs t0) (ss_segs t).
+(* ... while nothing has been appended yet *)
+Definition DM1 (t0 t : segments) : Prop :=
+  exists d, (d + length (ss_segs t) <= length (ss_segs t0))%nat /\
+    ss_snd_una t = wadd16 (ss_snd_una t0) (Z.of_nat d mod M16) /\ DMl d (ss_segs t0) (ss_segs t).
+
+Lemma DM1_refl : forall t, 0 <= ss_snd_una t < M16 -> DM1 t t.
+Proof.
+  intros t Hu. exists 0%nat. split; [cbn; lia|]. split; [|apply DMl_refl].
+  unfold wadd16. cbn. rewrite Z.mod_small; unfold M16 in *; lia.
+Qed.
+
+Lemma DM1_DM : forall t0 t, DM1 t0 t -> DM t0 t.
+Proof. intros t0 t (d & H1 & H2 & H3). exists d. split; [lia | auto]. Qed.
+
+Lemma DM_eq : forall t0 t t', ss_snd_una t' = ss_snd_una t -> Forall2 dlv (ss_segs t) (ss_segs t') -> DM t0 t -> DM t0 t'.
+Proof.
+  intros t0 t t' E F (d & H1 & H2 & H3). exists d. split; [exact H1|]. split; [congruence|].
+  eapply DMl_mono; eauto.
+Qed.
+
+Lemma DM1_eq : forall t0 t t', ss_snd_una t' = ss_snd_una t -> Forall2 dlv (ss_segs t) (ss_segs t') -> DM1 t0 t -> DM1 t0 t'.
+Proof.
+  intros t0 t t' E F (d & H1 & H2 & H3). exists d.
+  rewrite <- (Forall2_len _ _ _ _ _ F). split; [exact H1|]. split; [congruence|].
+  eapply DMl_mono; eauto.
+Qed.
+
+Lemma remove_up_to_ack_DM1 : forall t0 t now ack sk t' r,
+  remove_up_to_ack t now ack sk = (t', r) -> DM1 t0 t -> DM1 t0 t'.
+Proof.
+  intros t0 t now ack sk t' r. unfold remove_up_to_ack.
+  set (dc := if 0 <=? seq_sub ack (ss_snd_una t) then _ else 0%nat).
+  destruct (sack_phase t (skipn dc (ss_segs t)) _ _ now ack sk) as [[[rest2 a2] dp] lse] eqn:E2.
+  destruct (strip_delivered rest2 0 0) as [[rest3 cnt3] bytes3] eqn:E3.
+  intro H; injection H as <- _. intros (d & H1 & H2 & H3).
+  apply sack_phase_dlv in E2.
+  destruct (strip_delivered_spec _ _ _ _ _ _ E3) as (dropped & Hd & Hc3 & _).
+  assert (Hdc : (dc <= length (ss_segs t))%nat).
+  { subst dc. destruct (0 <=? _); [|lia]. unfold len_z. lia. }
+  assert (Hl2 : length rest2 = (length (ss_segs t) - dc)%nat).
+  { rewrite <- (Forall2_len _ _ _ _ _ E2), skipn_length. reflexivity. }
+  assert (Hl3 : (length dropped + length rest3 = length rest2)%nat) by (rewrite Hd, app_length; reflexivity).
+  exists (d + dc + length dropped)%nat. cbn [ss_segs ss_snd_una].
+  split; [lia|]. split.
+  - rewrite H2, Hc3. rewrite !wadd16_wadd16 by lia. f_equal. f_equal. lia.
+  - apply DMl_drop. rewrite <- Hd. eapply DMl_mono; [|exact E2].
+    (* skipn dc *)
+    intros i g Hn Hg. replace (d + dc + i)%nat with (d + (dc + i))%nat in Hn by lia.
+    destruct (H3 _ g Hn Hg) as (g' & K1 & K2). exists g'. split; [|exact K2].
+    rewrite nth_error_skipn. exact K1.
+Qed.
+
+Ltac skr_leaf := unfold skr; repeat split; reflexivity.
+Ltac fpr_leaf := apply fpr_same; reflexivity.
+
 Section WithCC.
 Context {CC : Type} (cci : cc_iface CC).
 Notation vsock := (vsock CC).
@@ -516,6 +708,238 @@ Proof.
     + intros _. right. unfold ITN. rewrite Hsg. exact Hit.
     + intro K. unfold NE in K. congruence.
 Qed.
+
+(* ================================================================== delivered stays delivered, through a poll *)
+Lemma recovery_on_ack_dlv : forall r h segs ls cc now rtt r' segs' cc',
+  recovery_on_ack cci r h segs ls cc now rtt = Some (r', segs', cc') ->
+  Forall2 dlv (ss_segs segs) (ss_segs segs') /\ ss_snd_una segs' = ss_snd_una segs.
+Proof.
+  intros r h segs ls cc now rtt r' segs' cc'. unfold recovery_on_ack. cbv zeta.
+  cbn [rv_phase rv_supports_sack rv_last_ack]. intros H.
+  assert (Hid : Forall2 dlv (ss_segs segs) (ss_segs segs) /\ ss_snd_una segs = ss_snd_una segs)
+    by (split; [apply Forall2_dlv_refl | reflexivity]).
+  destruct (rv_phase r).
+  - destruct (seq_ge _ _); injection H as _ <- _; exact Hid.
+  - destruct (ss_segs segs) eqn:Es; [injection H as _ <- _; rewrite Es; split; [constructor | reflexivity]|].
+    rewrite <- Es in *.
+    match type of H with (match ?c with _ => _ end) = _ => destruct c as [[dup' la']|] end; [|discriminate].
+    destruct (dup' <? SACK_DUP_THRESH); [injection H as _ <- _; exact Hid|].
+    destruct (calc_pipe _ _ _ _ _) as [[[sg pipe] recalc]|] eqn:Ec; [|discriminate].
+    injection H as _ <- _. eapply calc_pipe_dlv; eauto.
+  - destruct (seq_ge _ _); injection H as _ <- _; exact Hid.
+Qed.
+
+Lemma pim_ack_DM1 : forall t0 (s1 s2 : vsock) h res,
+  pim_ack cci s1 h = Some (s2, res) -> DM1 t0 (v_segs s1) -> DM1 t0 (v_segs s2).
+Proof.
+  intros t0 s1 s2 h res. unfold pim_ack.
+  destruct (remove_up_to_ack _ _ _ _) as [segs1 res0] eqn:Er.
+  match goal with |- (match ?o with Some _ => _ | None => _ end) = _ -> _ => destruct o as [rtte1|] end; [|discriminate].
+  destruct (cc_on_ack cci _ _ _ _) as [cc3|]; [|discriminate].
+  destruct (recovery_on_ack cci _ _ _ _ _ _ _) as [[[rec1 segs2] cc4]|] eqn:Ero; [|discriminate].
+  intro H; injection H as <- _. intro K. vsimpl_goal.
+  destruct (recovery_on_ack_dlv _ _ _ _ _ _ _ _ _ _ Ero) as [F E].
+  eapply DM1_eq; [exact E | exact F|]. eapply remove_up_to_ack_DM1; eauto.
+Qed.
+
+Lemma enqueue_DM : forall t0 t len p, DM t0 t -> DM t0 (enqueue t len p).
+Proof.
+  intros t0 t len p (d & H1 & H2 & H3). exists d. unfold enqueue. cbn [Segments.set_segs ss_segs ss_snd_una].
+  split; [exact H1|]. split; [exact H2 | apply DMl_app; exact H3].
+Qed.
+
+Lemma segment_loop_DM : forall t0 fuel nagle ss segs rem rwr ss' segs' rem',
+  segment_loop fuel nagle ss segs rem rwr = Some (ss', segs', rem') -> DM t0 segs -> DM t0 segs'.
+Proof.
+  intro t0. induction fuel as [|x fuel IH]; intros nagle ss segs rem rwr ss' segs' rem' H K; cbn [segment_loop] in H.
+  - inversion H; subst; exact K.
+  - destruct (_ && _); [|inversion H; subst; exact K].
+    destruct (next_segment_size ss) as [[ss1 sz]|] eqn:E; [|discriminate].
+    destruct (_ && _ && _); [inversion H; subst; exact K|].
+    destruct (mss ss1 <? _); [inversion H; subst; apply enqueue_DM; exact K|].
+    eapply IH; [exact H|]. apply enqueue_DM. exact K.
+Qed.
+
+Lemma pop_expired_DM : forall t0 t to mr t' pe,
+  pop_expired_mtu_probe t to mr = (t', pe) -> DM t0 t -> DM t0 t'.
+Proof.
+  intros t0 t to mr t' pe. unfold pop_expired_mtu_probe.
+  destruct (last_and_init (ss_segs t)) as [[init x]|] eqn:E; [|intro H; injection H as <- _; auto].
+  destruct (sg_delivered x) eqn:Ed; [intro H; injection H as <- _; auto|].
+  destruct (_ && _ && _); [|destruct (sg_probe x); intro H; injection H as <- _; auto].
+  intro H; injection H as <- _. intros (d & H1 & H2 & H3). exists d.
+  cbn [Segments.set_segs ss_segs ss_snd_una]. split; [exact H1|]. split; [exact H2|].
+  apply last_and_init_app in E. rewrite E in H3. eapply DMl_pop; eauto.
+Qed.
+
+Lemma split_DM : forall t0 (s : vsock),
+  DM t0 (v_segs s) ->
+  match split_tx_queue_into_segments cci s with
+  | SOk s' _ | SErr s' _ => DM t0 (v_segs s')
+  | _ => True
+  end.
+Proof.
+  intros t0 s K. unfold split_tx_queue_into_segments.
+  destruct (_ =? 0); [exact K|].
+  match goal with |- context [is_remote_fin_or_later (v_state ?x)] => set (s1 := x) end.
+  assert (F1 : v_segs s1 = v_segs s).
+  { subst s1. destruct (_ && _); [|reflexivity].
+    destruct (grow _ _) as [tx1 g]. destruct g; [destruct (wake_writer tx1)|]; reflexivity. }
+  clearbody s1.
+  destruct (is_remote_fin_or_later _); [rewrite F1; exact K|].
+  destruct (pop_expired_mtu_probe _ _ _) as [segs1 pe] eqn:Ep.
+  assert (K1 : DM t0 segs1) by (eapply pop_expired_DM; [exact Ep | rewrite F1; exact K]).
+  assert (Hcont : forall s2 : vsock, DM t0 (v_segs s2) ->
+    match (if Z.of_nat (length (ring (v_tx s))) <? ss_len_bytes (v_segs s2)
+       then SErr s2 (ErrBug BugInBufferComputations)
+       else match segment_loop (ring (v_tx s2)) (o_nagle (v_opts s2)) (v_ss s2) (v_segs s2)
+                    (Z.of_nat (length (ring (v_tx s))) - ss_len_bytes (v_segs s2))
+                    (v_last_remote_window s2) with
+            | Some (ss', segs', remaining) =>
+                SOk (set_unsegmented (VSockRec.set_segs (set_ss s2 ss') segs') remaining) tt
+            | None => SPanic
+            end) with SOk s' _ | SErr s' _ => DM t0 (v_segs s') | _ => True end).
+  { intros s2 F2. destruct (_ <? _); [exact F2|].
+    match goal with |- context [segment_loop ?a ?b ?c ?d ?e ?f] =>
+      destruct (segment_loop a b c d e f) as [[[ss' segs'] rem']|] eqn:E end; [|exact I].
+    vsimpl_goal. eapply segment_loop_DM; eauto. }
+  destruct pe.
+  - apply Hcont. destruct (seq_gt _ _); exact K1.
+  - vsimpl_goal. rewrite F1. exact K.
+  - apply Hcont. rewrite F1. exact K.
+Qed.
+
+Lemma on_sent_DM : forall t0 t i now, DM t0 t -> DM t0 (on_sent t i now).
+Proof.
+  intros t0 t i now K. eapply DM_eq; [| |exact K]; [reflexivity|].
+  unfold on_sent, Segments.set_segs. cbn [ss_segs]. apply update_nth_dlv. intros x H. exact H.
+Qed.
+
+(* the strict regime again, with the relation to the table the poll started from *)
+Definition IAD (t0 : segments) (s : vsock) : Prop := IA s /\ DM1 t0 (v_segs s).
+Definition IOD (t0 : segments) (s : vsock) : Prop := IO s /\ DM t0 (v_segs s).
+
+Lemma pim_IAD : forall t0 (s : vsock), IAD t0 s -> spI (IAD t0) (process_all_incoming_messages cci s).
+Proof.
+  intros t0 s Hi. apply pim_rule; try exact Hi.
+  - intros a b F [K1 K2]. split; [eapply IA_fpr; eauto|]. destruct F as (E1 & _). rewrite E1. exact K2.
+  - intros a c tr ti [K1 K2]. split; [eapply IA_skr; [|exact K1]; skr_leaf | exact K2].
+  - intros s1 s2 h res [K1 K2] E. split; [eapply IA_skr; [eapply pim_ack_skr; exact E | exact K1]|].
+    eapply pim_ack_DM1; eauto.
+  - intros s3 hr hd rtt now segs' p rc rcx [K1 K2] E.
+    split; [eapply IA_skr; [|exact K1]; unfold set_recovering; skr_leaf|].
+    unfold set_recovering. vsimpl_goal. destruct (calc_pipe_dlv _ _ _ _ _ _ _ _ E) as [F Eu].
+    eapply DM1_eq; eauto.
+Qed.
+
+Lemma stq_IOD : forall t0 (s : vsock), IOD t0 s -> stI (IOD t0) (fun a _ => IOD t0 a) (send_tx_queue cci s).
+Proof.
+  intros t0 s Hi. apply (send_tx_queue_rule cci (IOD t0) (fun _ => False) (fun a _ => IOD t0 a)); try exact Hi; auto.
+  - intros a b F [K1 K2]. split; [eapply IO_fpr; eauto|]. destruct F as (E1 & _). rewrite E1. exact K2.
+  - intros a h f a1 ((K & _) & _) E. pose proof (send_data_script a h f) as Hs. rewrite E in Hs.
+    destruct Hs as (_ & _ & _ & Hs). apply (Hs K). reflexivity.
+  - intros a e [].
+  - intros a h f a1 n rest [K1 K2] Hs E. split; [eapply IO_sent; eauto|].
+    pose proof (send_data_spec a h f) as Hd. rewrite E in Hd. destruct Hd as (_ & _ & Hsg & _).
+    rewrite Hsg. apply on_sent_DM. exact K2.
+  - intros a segs' q ss' [].
+Qed.
+
+Lemma jbd_Cc : forall t0 (s : vsock) e,
+  NW s /\ OUT s /\ DM t0 (v_segs s) ->
+  NW (just_before_death s e) /\ OUT (just_before_death s e) /\ DM t0 (v_segs (just_before_death s e)).
+Proof.
+  intros t0 s e (K1 & K2 & K3). pose proof (jbd_spec s e) as J. cbv zeta in J.
+  destruct J as (_ & J2 & _ & _ & _ & _ & J7).
+  destruct (VSock_Lemmas.just_before_death_frame s e) as (_ & F2 & F3 & _).
+  split; [unfold NW in *; congruence|]. split; [|rewrite J2; exact K3].
+  unfold OUT in *. destruct J7 as [J7|(_ & _ & p & J7 & Jp & _)]; rewrite J7.
+  - eapply Forall_impl; [|exact K2]. intros q Hq. unfold live_pkt. rewrite J2, F3. exact Hq.
+  - constructor; [apply nodata_live; unfold nodata; rewrite Jp; discriminate|].
+    eapply Forall_impl; [|exact K2]. intros q Hq. unfold live_pkt. rewrite J2, F3. exact Hq.
+Qed.
+
+Theorem poll_OUT_DM_strict_all : forall (s s' : vsock) r,
+  LB 0 s -> EF s -> poll cci s = (s', r) ->
+  match r with
+  | PollPanic => v_out s' = []
+  | _ => NW s' /\ OUT s' /\ DM (v_segs s) (v_segs s')
+  end.
+Proof.
+  intros s s' r HL HE H. set (t0 := v_segs s).
+  set (A0 := fun a : vsock => LB 0 a /\ EF a /\ v_out a = [] /\ v_segs a = t0).
+  set (A := fun a : vsock => LB 0 a /\ IAD t0 a).
+  set (Cc := fun a : vsock => NW a /\ OUT a /\ DM t0 (v_segs a)).
+  set (B2 := fun a : vsock => LB 0 a /\ IA a /\ DM t0 (v_segs a)).
+  set (QE := fun (a : vsock) (_ : verror) => Cc a).
+  assert (HA_Cc : forall a, IAD t0 a -> Cc a).
+  { intros a ((_ & _ & K3 & K4) & K5). split; [exact K3|]. split; [apply nodata_OUT; exact K4 | apply DM1_DM; exact K5]. }
+  assert (HB_Cc : forall a, B2 a -> Cc a).
+  { intros a (_ & (_ & _ & K3 & K4) & K5). split; [exact K3|]. split; [apply nodata_OUT; exact K4 | exact K5]. }
+  assert (Hsfp : forall X (a : vsock) (m : step X), A a -> sfp a m -> skp a m -> stH Cc QE A m).
+  { intros X a m [L [K K5]] F S.
+    assert (Hk : forall a' : vsock, fpr a a' -> IAD t0 a').
+    { intros a' F'. split; [eapply IA_fpr; eauto|]. destruct F' as (E1 & _). rewrite E1. exact K5. }
+    destruct m as [a' x|a' e|]; cbn [sfp skp stH] in *;
+      [split; intros _; [apply HA_Cc, Hk, F | split; [eapply LB_kp; eauto | apply Hk, F]]
+      | apply HA_Cc, Hk; apply F | exact I]. }
+  assert (Hcfp : forall X (a : vsock) (m : step X), Cc a -> sfp a m -> stH Cc QE Cc m).
+  { intros X a m (K1 & K2 & K3) F.
+    assert (Hk : forall a' : vsock, fpr a a' -> Cc a').
+    { intros a' F'. pose proof F' as (E1 & _ & E3 & E4 & _). split; [unfold NW in *; congruence|].
+      split; [eapply OUT_fpr; [apply fpr_fpw; exact F' | exact K2] | rewrite E1; exact K3]. }
+    destruct m as [a' x|a' e|]; cbn [sfp stH] in *;
+      [split; intros _; apply Hk; exact F | apply Hk; apply F | exact I]. }
+  assert (HR : resH A0 Cc Cc QE s' r).
+  { apply (poll_H cci A0 A A B2 Cc Cc Cc QE) with (s := s); try exact H.
+    - intros a (L & E & O & Sg). split; [eapply LB_kp; [exact L|]; unfold kp; auto|].
+      split.
+      + split; [exact E|]. split; [reflexivity|]. split; [reflexivity|].
+        change (v_out (poll_start a)) with (v_out a). rewrite O. constructor.
+      + change (v_segs (poll_start a)) with (v_segs a). rewrite Sg. apply DM1_refl. subst t0. apply HL.
+    - intros a K _. apply (Hsfp _ a); [exact K | apply maybe_send_syn_ack_fpr | apply maybe_send_syn_ack_kp].
+    - intros a K _. apply (Hsfp _ a); [exact K | apply send_ack_fpr | apply send_ack_kp].
+    - intros a [L K] _. pose proof (process_all_LB cci a L) as PL. pose proof (pim_IAD t0 a K) as PI.
+      destruct (process_all_incoming_messages cci a) as [a' x|a' e|]; cbn [sLB spI stH] in *; auto.
+      + split; intros _; [apply HA_Cc; exact PI | split; assumption].
+      + apply HA_Cc. apply PI.
+    - intros a rx1 fb w [L [K K5]] _ _. split; [eapply LB_kp; [exact L|]; unfold kp, add_wakes; auto|].
+      split; [eapply IA_fpr; [|exact K]; unfold add_wakes; fpr_leaf | apply DM1_DM; exact K5].
+    - intros a K. apply HB_Cc. exact K.
+    - intros a (L & K & K5) _. pose proof (split_LB cci a L) as PL. pose proof (split_skr cci a) as PS.
+      pose proof (split_DM t0 a K5) as PD.
+      destruct (split_tx_queue_into_segments cci a) as [a' x|a' e|]; cbn [sLB stR stB] in *; auto.
+      + exact (conj PL (conj (IA_skr _ _ PS K) PD)).
+      + apply HB_Cc. exact (conj PL (conj (IA_skr _ _ PS K) PD)).
+    - intros a (L & (K1 & K2 & K3 & K4) & K5) _ _.
+      assert (Hio : IOD t0 a).
+      { split; [|exact K5]. split; [exact K1|]. split; [exact K2|]. split; [exact K3|].
+        split; [apply nodata_OUT; exact K4 | apply seg_inv_SZ; apply L]. }
+      pose proof (stq_IOD t0 a Hio) as S.
+      destruct (send_tx_queue cci a) as [a' x|a' e|]; cbn [stI stQ] in *; auto.
+      + destruct S as ((S1 & S2 & S3 & S4 & S5) & S6).
+        split; [intro R; congruence|]. split; intros _ _; (split; [assumption|]; split; assumption).
+      + destruct S as ((S1 & S2 & S3 & S4 & S5) & S6). split; [assumption|]. split; assumption.
+    - intros a (K1 & K2 & K3) _. pose proof (transition_fpr a) as F. pose proof F as (E1 & _ & E3 & E4 & _).
+      split; [unfold NW in *; congruence|].
+      split; [eapply OUT_fpr; [apply fpr_fpw; exact F | exact K2] | rewrite E1; exact K3].
+    - intros a K _. apply (Hcfp _ a); [exact K | apply maybe_send_fin_fpr].
+    - intros a K _. apply (Hcfp _ a); [exact K | apply maybe_send_ack_fpr].
+    - split; [eapply LB_kp; [exact HL|]; unfold kp; auto|]. split; [exact HE|]. split; reflexivity. }
+  destruct r; cbn [resH] in HR.
+  - destruct HR as [[_ K]|(sb & (K1 & K2 & K3) & _ & _ & _ & ->)]; [exact K|].
+    pose proof (poll_tail_fpr sb) as F. pose proof F as (E1 & _ & E3 & E4 & _).
+    split; [unfold NW in *; congruence|].
+    split; [eapply OUT_fpr; [apply fpr_fpw; exact F | exact K2] | rewrite E1; exact K3].
+  - destruct HR as (sb & K & _ & ->). apply jbd_Cc. exact K.
+  - destruct HR as (sb & K & ->). apply jbd_Cc. exact K.
+  - apply HR.
+Qed.
+
+Theorem poll_OUT_DM_strict : forall (s s' : vsock),
+  LB 0 s -> EF s -> poll cci s = (s', PollPending) ->
+  NW s' /\ OUT s' /\ DM (v_segs s) (v_segs s').
+Proof. intros s s' HL HE H. exact (poll_OUT_DM_strict_all s s' PollPending HL HE H). Qed.
 
 (* ================================================================== the back-off, over a whole poll *)
 Lemma pim_nodata : forall s : vsock,
